@@ -1011,5 +1011,291 @@ example : beamCX (realExt 0) 1 1 true exCX 1 (-1) 0 1 1 ≠ Out.val 0 :=
 end nonvacuity
 
 
-end Cherab.Props.C07
 
+/-! ## Proof-deepening pass
+
+### single-point axes, per axis: no dependence, hence no range to leave -/
+
+/-- a single-point component is a `Constant1D`: the same value at every abscissa, for every extrapolation setting -/
+theorem interpOrConst_single_point (E : Ext α) (k k' : Extrap) (x q : List α) (hq : q.length = 1) (p p' : α) :
+    interpOrConst E k x q p = interpOrConst E k' x q p' ∧ (interpOrConst E k x q p).isSome := by
+  unfold interpOrConst
+  rw [if_neg (by omega), if_neg (by omega)]
+  exact ⟨rfl, rfl⟩
+
+/-- beam coefficients, single-point **energy** axis (several densities): the energy–density factor does not look at the
+energy — any energy, inside or outside what would be a range, gives the same factor -/
+theorem beamNpl_single_energy_axis (E : Ext α) (cf : α) (wl : Option α) (ex : Bool) (b : BeamTable α)
+    (he : b.e.length = 1) (en en' d : α) : beamNpl E cf wl ex b en d = beamNpl E cf wl ex b en' d := by
+  unfold beamNpl
+  simp only []
+  split_ifs with c1 c2 c3
+  · rfl
+  · rfl
+  · exact absurd (by simp [he]) c2
+  · exact absurd (by simp [he]) c2
+
+/-- … and single-point **density** axis (several energies): the factor does not look at the density -/
+theorem beamNpl_single_density_axis (E : Ext α) (cf : α) (wl : Option α) (ex : Bool) (b : BeamTable α)
+    (hn : b.n.length = 1) (en d d' : α) : beamNpl E cf wl ex b en d = beamNpl E cf wl ex b en d' := by
+  unfold beamNpl
+  simp only []
+  split_ifs with c1 c2 c3
+  · rfl
+  · exact absurd (by simp only [Bool.and_eq_true, beq_iff_eq] at c2 ⊢; exact ⟨c2, hn⟩) c1
+  · rfl
+  · exact absurd (by simp [hn]) c3
+
+/-- hence the whole beam coefficient: along a single-point energy axis every positive energy gives the same result
+(value or raise), with either extrapolation setting — there is no range policy along such an axis -/
+theorem beam_single_energy_axis_no_range (E : Ext α) (cf : α) (wl : Option α) (ex : Bool) (b : BeamTable α)
+    (he : b.e.length = 1) (en en' d T : α) (h : 0 < en) (h' : 0 < en') :
+    beam E cf wl ex b en d T = beam E cf wl ex b en' d T := by
+  unfold beam
+  rw [beamNpl_single_energy_axis E cf wl ex b he en en' d]
+  by_cases hc : beamCtorOk b = true
+  · simp only [hc, Bool.not_true, Bool.false_eq_true, if_false]
+    have e1 : (en ≤ 0 ∨ d ≤ 0 ∨ T ≤ 0) ↔ (en' ≤ 0 ∨ d ≤ 0 ∨ T ≤ 0) := by
+      constructor <;> rintro (h1 | h1) <;> first | exact absurd h1 (not_le.mpr ‹_›) | exact Or.inr h1
+    by_cases hg : en ≤ 0 ∨ d ≤ 0 ∨ T ≤ 0
+    · rw [if_pos hg, if_pos (e1.mp hg)]
+    · rw [if_neg hg, if_neg (fun h2 => hg (e1.mpr h2))]
+  · simp [hc]
+
+theorem beam_single_density_axis_no_range (E : Ext α) (cf : α) (wl : Option α) (ex : Bool) (b : BeamTable α)
+    (hn : b.n.length = 1) (en d d' T : α) (h : 0 < d) (h' : 0 < d') :
+    beam E cf wl ex b en d T = beam E cf wl ex b en d' T := by
+  unfold beam
+  rw [beamNpl_single_density_axis E cf wl ex b hn en d d']
+  by_cases hc : beamCtorOk b = true
+  · simp only [hc, Bool.not_true, Bool.false_eq_true, if_false]
+    have e1 : (en ≤ 0 ∨ d ≤ 0 ∨ T ≤ 0) ↔ (en ≤ 0 ∨ d' ≤ 0 ∨ T ≤ 0) := by
+      constructor <;> rintro (h1 | h1 | h1) <;>
+        first | exact Or.inl h1 | exact absurd h1 (not_le.mpr ‹_›) | exact Or.inr (Or.inr h1)
+    by_cases hg : en ≤ 0 ∨ d ≤ 0 ∨ T ≤ 0
+    · rw [if_pos hg, if_pos (e1.mp hg)]
+    · rw [if_neg hg, if_neg (fun h2 => hg (e1.mpr h2))]
+  · simp [hc]
+
+/-- BeamCXPEC, per linear axis: a single-point `qti` (resp. `qni`, `qz`, `qb`) makes the rate independent of the
+temperature (resp. density, Z_eff, B) — for positive temperatures / densities, which the leading guard lets through -/
+theorem beamCX_single_temperature_axis_no_range (E : Ext α) (cf wl : α) (ex : Bool) (c : CXTable α)
+    (h1 : c.qti.length = 1) (en T T' d z bf : α) :
+    beamCX E cf wl ex c en T d z bf = beamCX E cf wl ex c en T' d z bf := by
+  unfold beamCX
+  simp only []
+  rw [(interpOrConst_single_point E (kindOf Extrap.nearest ex) (kindOf Extrap.nearest ex) c.ti
+    (c.qti.map fun y => y / c.qref) (by simpa using h1) T T').1]
+
+theorem beamCX_single_density_axis_no_range (E : Ext α) (cf wl : α) (ex : Bool) (c : CXTable α)
+    (h1 : c.qni.length = 1) (en T d d' z bf : α) :
+    beamCX E cf wl ex c en T d z bf = beamCX E cf wl ex c en T d' z bf := by
+  unfold beamCX
+  simp only []
+  rw [(interpOrConst_single_point E (kindOf Extrap.nearest ex) (kindOf Extrap.nearest ex) c.ni
+    (c.qni.map fun y => y / c.qref) (by simpa using h1) d d').1]
+
+theorem beamCX_single_zeff_axis_no_range (E : Ext α) (cf wl : α) (ex : Bool) (c : CXTable α)
+    (h1 : c.qz.length = 1) (en T d z z' bf : α) :
+    beamCX E cf wl ex c en T d z bf = beamCX E cf wl ex c en T d z' bf := by
+  unfold beamCX
+  simp only []
+  rw [(interpOrConst_single_point E (kindOf Extrap.nearest ex) (kindOf Extrap.nearest ex) c.z
+    (c.qz.map fun y => y / c.qref) (by simpa using h1) z z').1]
+
+theorem beamCX_single_bfield_axis_no_range (E : Ext α) (cf wl : α) (ex : Bool) (c : CXTable α)
+    (h1 : c.qb.length = 1) (en T d z bf bf' : α) :
+    beamCX E cf wl ex c en T d z bf = beamCX E cf wl ex c en T d z bf' := by
+  unfold beamCX
+  simp only []
+  rw [(interpOrConst_single_point E (kindOf Extrap.nearest ex) (kindOf Extrap.nearest ex) c.b
+    (c.qb.map fun y => y / c.qref) (by simpa using h1) bf bf').1]
+
+/-- non-vacuity: the single-energy beam table of the examples above -/
+example : beam (realExt 0) 1 none false exBeam 5 10 20 = beam (realExt 0) 1 none false exBeam 7000 10 20 :=
+  beam_single_energy_axis_no_range (realExt 0) 1 none false exBeam rfl 5 7000 10 20 (by norm_num) (by norm_num)
+
+example : beamCX (realExt 0) 1 1 false exCX 1 3 1 1 1 = beamCX (realExt 0) 1 1 false exCX 1 900 1 1 1 :=
+  beamCX_single_temperature_axis_no_range (realExt 0) 1 1 false exCX rfl 1 3 900 1 1 1
+
+
+/-! ### provider statelessness: a memoising provider refines the stateless one iff its key determines the answer -/
+section memo
+open Cherab.Rates.Memo
+variable {ρ κ σ : Type} [DecidableEq κ]
+
+/-- invariant of the memo: every remembered answer is the function's answer for some request with that key -/
+def MemoOk (key : ρ → κ) (f : ρ → σ) (memo : List (κ × σ)) : Prop := ∀ e ∈ memo, ∃ r, key r = e.1 ∧ e.2 = f r
+
+theorem memo_step_spec (key : ρ → κ) (f : ρ → σ) (hk : ∀ r r', key r = key r' → f r = f r') (memo : List (κ × σ))
+    (hm : MemoOk key f memo) (r : ρ) : (step key f memo r).2 = f r ∧ MemoOk key f (step key f memo r).1 := by
+  unfold step
+  cases hfind : memo.find? (fun e => e.1 = key r) with
+  | some e =>
+    have hmem := List.mem_of_find?_eq_some hfind
+    have hkey : e.1 = key r := by simpa using List.find?_some hfind
+    obtain ⟨r', hr', hv⟩ := hm e hmem
+    exact ⟨by simp only []; rw [hv]; exact hk r' r (hr'.trans hkey), hm⟩
+  | none =>
+    refine ⟨rfl, ?_⟩
+    intro e he
+    rcases List.mem_cons.mp he with rfl | he
+    · exact ⟨r, rfl, rfl⟩
+    · exact hm e he
+
+/-- **statelessness, sufficiency**: when the key determines the answer, the memoising provider answers *every* history
+of requests exactly like the stateless function (the answer to a request is independent of all earlier requests) -/
+theorem memo_transparent (key : ρ → κ) (f : ρ → σ) (hk : ∀ r r', key r = key r' → f r = f r') (memo : List (κ × σ))
+    (hm : MemoOk key f memo) (hist : List ρ) : answers key f memo hist = hist.map f := by
+  induction hist generalizing memo with
+  | nil => rfl
+  | cons r rest ih =>
+    obtain ⟨h1, h2⟩ := memo_step_spec key f hk memo hm r
+    simp only [answers, List.map_cons, h1, ih _ h2]
+
+/-- **necessity** (the seeded wavelength cache): two requests with the same key and different answers, asked in a row,
+make the provider give the first one's answer to the second -/
+theorem memo_coarse_key_witness (key : ρ → κ) (f : ρ → σ) (r r' : ρ) (hkey : key r = key r') :
+    answers key f [] [r, r'] = [f r, f r] := by
+  simp [answers, step, hkey]
+
+/-- the two together: transparency for all histories ⇔ the key determines the answer -/
+theorem memo_transparent_iff (key : ρ → κ) (f : ρ → σ) :
+    (∀ hist, answers key f [] hist = hist.map f) ↔ (∀ r r', key r = key r' → f r = f r') := by
+  constructor
+  · intro h r r' hkey
+    have h1 := h [r, r']
+    rw [memo_coarse_key_witness key f r r' hkey] at h1
+    simpa using h1
+  · intro hk hist
+    exact memo_transparent key f hk [] (fun e he => absurd he (by simp)) hist
+
+/-- non-vacuity: a memo keyed by the request itself is transparent … -/
+example : answers (fun n : Nat => n) (fun n => n * n) [] [3, 4, 3] = [9, 16, 9] :=
+  memo_transparent _ _ (fun _ _ h => by rw [h]) [] (fun e he => absurd he (by simp)) _
+
+/-- … one keyed too coarsely (parity) is not -/
+example : answers (fun n : Nat => n % 2) (fun n => n * n) [] [3, 5] = [9, 9] :=
+  memo_coarse_key_witness _ _ 3 5 rfl
+
+end memo
+
+
+/-! ### the guard-order decision table, uniformly: the zero guard wins in every class and every argument position -/
+
+/-- a table of any of the four shapes -/
+inductive Tab (α : Type)
+  | g2 (t : Table2 α)
+  | g3 (t : Table3 α)
+  | bm (b : BeamTable α)
+  | cx (c : CXTable α)
+
+/-- the constructor succeeds (otherwise the accessor raises and no rate object exists) -/
+def Tab.ctorOk : Tab α → Prop
+  | Tab.g2 t => 2 ≤ t.ne.length ∧ 2 ≤ t.te.length
+  | Tab.g3 t => 2 ≤ t.ne.length ∧ 2 ≤ t.te.length ∧ 2 ≤ t.td.length
+  | Tab.bm b => beamCtorOk b = true
+  | Tab.cx _ => True
+
+/-- number of leading `evaluate` parameters that are a density, a temperature or an energy
+(`guard_positions_table` in `Props/C07Table.lean` ties this to the parameter names of the generated table) -/
+def Tab.dteCount : Tab α → Nat
+  | Tab.g2 _ => 2
+  | Tab.g3 _ => 3
+  | Tab.bm _ => 3
+  | Tab.cx _ => 3
+
+/-- `RateClass(table, …)(args…)` for any class (`none` = wrong number of arguments) -/
+def evalClass (E : Ext α) (cf : α) (wl : Option α) (onExtrap : Extrap) (ex : Bool) (tab : Tab α) (args : List α) :
+    Option (Out α) :=
+  match tab with
+  | Tab.g2 t => match args with
+    | [d, T] => some (grid2 E cf wl onExtrap ex t d T)
+    | _ => none
+  | Tab.g3 t => match args with
+    | [d, T, D] => some (grid3 E cf (wl.getD 1) ex t d T D)
+    | _ => none
+  | Tab.bm b => match args with
+    | [en, d, T] => some (beam E cf wl ex b en d T)
+    | _ => none
+  | Tab.cx c => match args with
+    | [en, T, d, z, bf] => some (beamCXGuarded true E cf (wl.getD 1) ex c en T d z bf)
+    | _ => none
+
+/-- **the zero guard wins** — for every class, every density / temperature / energy position, *whatever the other
+arguments are* (inside, outside the table, on a knot, non-positive themselves), whatever the extrapolation setting, the
+wavelength, and whatever the external functions do (no hypothesis on `E`: also when an interpolator would raise) -/
+theorem zero_guard_wins (E : Ext α) (cf : α) (wl : Option α) (k : Extrap) (ex : Bool) (tab : Tab α) (args : List α)
+    (hc : tab.ctorOk) (i : Nat) (x : α) (hi : i < tab.dteCount) (hx : args[i]? = some x) (hneg : x ≤ 0) (out : Out α)
+    (hout : evalClass E cf wl k ex tab args = some out) : out = Out.val 0 := by
+  cases tab with
+  | g2 t =>
+    rcases args with _ | ⟨d, _ | ⟨T, _ | ⟨_, _⟩⟩⟩ <;> simp only [evalClass, Option.some.injEq, reduceCtorEq] at hout
+    subst hout
+    apply grid2_zero_on_nonpositive E cf wl k ex t hc.1 hc.2
+    simp only [Tab.dteCount] at hi
+    rcases i with _ | _ | i
+    · simp at hx; subst hx; exact Or.inl hneg
+    · simp at hx; subst hx; exact Or.inr hneg
+    · omega
+  | g3 t =>
+    rcases args with _ | ⟨d, _ | ⟨T, _ | ⟨D, _ | ⟨_, _⟩⟩⟩⟩ <;>
+      simp only [evalClass, Option.some.injEq, reduceCtorEq] at hout
+    subst hout
+    apply grid3_zero_on_nonpositive E cf _ ex t hc.1 hc.2.1 hc.2.2
+    simp only [Tab.dteCount] at hi
+    rcases i with _ | _ | _ | i
+    · simp at hx; subst hx; exact Or.inl hneg
+    · simp at hx; subst hx; exact Or.inr (Or.inl hneg)
+    · simp at hx; subst hx; exact Or.inr (Or.inr hneg)
+    · omega
+  | bm b =>
+    rcases args with _ | ⟨en, _ | ⟨d, _ | ⟨T, _ | ⟨_, _⟩⟩⟩⟩ <;>
+      simp only [evalClass, Option.some.injEq, reduceCtorEq] at hout
+    subst hout
+    apply beam_zero_on_nonpositive E cf wl ex b hc
+    simp only [Tab.dteCount] at hi
+    rcases i with _ | _ | _ | i
+    · simp at hx; subst hx; exact Or.inl hneg
+    · simp at hx; subst hx; exact Or.inr (Or.inl hneg)
+    · simp at hx; subst hx; exact Or.inr (Or.inr hneg)
+    · omega
+  | cx c =>
+    rcases args with _ | ⟨en, _ | ⟨T, _ | ⟨d, _ | ⟨z, _ | ⟨bf, _ | ⟨_, _⟩⟩⟩⟩⟩⟩ <;>
+      simp only [evalClass, Option.some.injEq, reduceCtorEq] at hout
+    subst hout
+    apply beamCXGuarded_zero_on_nonpositive E cf _ ex c
+    simp only [Tab.dteCount] at hi
+    rcases i with _ | _ | _ | i
+    · simp at hx; subst hx; exact Or.inl hneg
+    · simp at hx; subst hx; exact Or.inr (Or.inl hneg)
+    · simp at hx; subst hx; exact Or.inr (Or.inr hneg)
+    · omega
+
+/-- the rest of the decision table for the 2-D classes in one statement: with positive arguments, outside the table
+raises iff extrapolation is off, otherwise a positive value comes back -/
+theorem grid2_decision_table {E : Ext α} (S : ExtSpec E) (cf : α) (wl : Option α) (k : Extrap) (hk : k ≠ Extrap.none)
+    (ex : Bool) (t : Table2 α) (h : WF2 t) (h1 : 2 ≤ t.ne.length) (h2 : 2 ≤ t.te.length) (d T : α) :
+    ((d ≤ 0 ∨ T ≤ 0) → grid2 E cf wl k ex t d T = Out.val 0) ∧
+    (0 < d → 0 < T → ex = false →
+      (Below (t.ne.map E.logc) (E.loge d) ∨ Above (t.ne.map E.logc) (E.loge d) ∨
+        Below (t.te.map E.logc) (E.loge T) ∨ Above (t.te.map E.logc) (E.loge T)) →
+      grid2 E cf wl k ex t d T = Out.valueError) ∧
+    (0 < d → 0 < T → (ex = true ∨ (Within (t.ne.map E.logc) (E.loge d) ∧ Within (t.te.map E.logc) (E.loge T))) →
+      ∃ v, 0 < v ∧ grid2 E cf wl k ex t d T = Out.val v) := by
+  refine ⟨grid2_zero_on_nonpositive E cf wl k ex t h1 h2 d T, ?_, ?_⟩
+  · intro hd hT hex hout
+    subst hex
+    exact grid2_outside_raises S cf wl k t h h1 h2 d T hd hT hout
+  · intro hd hT hcase
+    rcases hcase with hex | ⟨w1, w2⟩
+    · subst hex
+      exact grid2_extrapolated_returns S cf wl k hk t h h1 h2 d T hd hT
+    · exact grid2_within_returns S cf wl k ex t h h1 h2 d T hd hT w1 w2
+
+/-- non-vacuity: a zero temperature beats an out-of-range density on the concrete table, extrapolation off -/
+example : grid2 (realExt 0) 1 none Extrap.nearest false exTable (1 / 1000) 0 = Out.val 0 :=
+  zero_guard_wins (realExt 0) 1 none Extrap.nearest false (Tab.g2 exTable) [1 / 1000, 0]
+    ⟨by simp [exTable], by simp [exTable]⟩ 1 0 (by simp [Tab.dteCount]) rfl (le_refl _) _ rfl
+
+end Cherab.Props.C07
